@@ -6,6 +6,8 @@ from sa import rules_repr as RR2
 from sa import report, effects as E, rules_state as RS, rules_registry as RR
 from sa import rules_extra as RX
 
+from sa import rules_r12 as R12
+
 
 def run(ctx, repo):
     ctx.explanation = (
@@ -40,6 +42,7 @@ def run(ctx, repo):
     ctx.call(R6B.r_per_document_store, repo)
     ctx.call(RR2.r_no_nondeterminism, repo)
 
+    ctx.call(R12.r_class_state_writers_offline, repo)
 
 if __name__ == '__main__':
     sys.exit(report.main('C11', 'other', run))
